@@ -62,6 +62,64 @@ type c15Scenario struct {
 	Race func(prefixObs []Obs) Op
 	// the credential is one-time under this rotation setting
 	OneTime bool
+	// request_uri scenarios with a response type of their own (Model/RaceUri.v scn_uri): the client that may use every
+	// response type, the implicit grant enabled; "" = the scenarios of Model/Race.v (client c15Client, c15Opts)
+	RespType string
+	// quick tier: run this scenario only with this rotation setting (nil: with both) - the authorization endpoint
+	// never looks at the rotation flag, the thorough tier runs both all the same
+	QuickRot *bool
+}
+
+// the client of the request_uri x response-type scenarios (RaceUri.ru_client)
+var c15RespTypes = []string{"code", "id_token", "token", "code id_token", "code token", "id_token token", "code id_token token"}
+var c15ClientAll = ClientSpec{ID: 1, Grants: []string{"authorization_code", "refresh_token", "implicit", "urn:openid:params:grant-type:ciba"},
+	RespTypes: c15RespTypes, Redirects: []string{"https://c1.example/cb"}, Scopes: "openid email", CibaMode: "poll"}
+
+func (sc c15Scenario) spec(flavour string) WorldSpec {
+	if sc.RespType == "" {
+		return WorldSpec{Profile: "openid", Opts: c15Opts(sc.Rotation), Dyn: []ClientSpec{c15Client}, Flavour: flavour}
+	}
+	return WorldSpec{Profile: "openid", Opts: append(c15Opts(sc.Rotation), Opt{Name: "WithImplicitGrant"}), Dyn: []ClientSpec{c15ClientAll}, Flavour: flavour}
+}
+
+func c15RtContains(rt, part string) bool {
+	for _, x := range strings.Fields(rt) {
+		if x == part {
+			return true
+		}
+	}
+	return false
+}
+
+// the request_uri presented with every response type (RaceUri.scn_uri): with `token` / `id_token` in it the
+// authorization endpoint itself issues the artifacts - AFTER it consumed the pushed session
+func c15UriScenarios(rotation bool) []c15Scenario {
+	var l []c15Scenario
+	for i, rt := range c15RespTypes {
+		rt := rt
+		ps := Params{Redirect: "https://c1.example/cb", RespType: rt, Scopes: "openid email", State: "st", Nonce: "n-1"}
+		sc := c15Scenario{Kind: "request_uri[" + rt + "]", SigKind: "request_uri_implicit:rotation=any", Coq: "scn_uri " + cS(rt), Rotation: rotation,
+			Lookup: KAGet, Consume: KADel, N: 4, L: 1, C: 3, OneTime: true, RespType: rt,
+			Prefix: []Op{{Kind: "Par", Cred: c15Cred, Params: ps}},
+			Race: func(p []Obs) Op {
+				o := Op{Kind: "Authorize", Client: 1, Params: ps, PolicyAvail: true, Pol: c15Pol}
+				o.Params.RequestURI = p[0].H
+				return o
+			}}
+		if rt == "code" {
+			sc.SigKind = "request_uri:rotation=any"
+		}
+		if c15RtContains(rt, "code") {
+			sc.Consume = KASave
+		}
+		if c15RtContains(rt, "token") {
+			sc.N = 5
+		}
+		q := i%2 == 0
+		sc.QuickRot = &q
+		l = append(l, sc)
+	}
+	return l
 }
 
 var c15Client = ClientSpec{ID: 1, Grants: []string{"authorization_code", "refresh_token", "urn:openid:params:grant-type:ciba"},
@@ -295,7 +353,7 @@ func (w *World) c15Request(o Op, req int) *http.Request {
 // c15Execute: fresh world, prefix, k racing requests under the schedule.
 func c15Execute(sc c15Scenario, flavour string, k int, sched []int) (run c15Run) {
 	run = c15Run{Kind: sc.Kind, Flavour: flavour, Rotation: sc.Rotation, K: k, Sched: sched}
-	spec := WorldSpec{Profile: "openid", Opts: c15Opts(sc.Rotation), Dyn: []ClientSpec{c15Client}, Flavour: flavour}
+	spec := sc.spec(flavour)
 	run.Spec = spec
 	w, err := NewWorld(spec)
 	if err != nil {
@@ -510,7 +568,7 @@ func c15ScnCoq(sc c15Scenario, spec WorldSpec, prefix []Op, race Op) string {
 		cList(spec.Dyn, ClientSpec.coq), cList(prefix, Op.coq), race.coq(), c15KindCoq[sc.Lookup], c15KindCoq[sc.Consume])
 }
 
-const c15Header = `From Verif Require Import Base Scope Types Prog Pop Token Authorize System Config Race.
+const c15Header = `From Verif Require Import Base Scope Types Prog Pop Token Authorize System Config Race RaceUri.
 From Verif.Corr Require Import C15.
 Local Open Scope N_scope.
 `
@@ -550,6 +608,26 @@ func c15Signature(sc c15Scenario, run *c15Run) string {
 	return "race:" + sc.SigKind + ":" + class
 }
 
+// what the winners were given by the authorization endpoint itself: access tokens, codes; grant sessions saved
+func c15Artifacts(run *c15Run) (tokens, codes, grants int) {
+	for i, o := range run.Obs {
+		if i < len(run.OK) && run.OK[i] && o.Kind == "Nav" {
+			if o.NAt != 0 {
+				tokens++
+			}
+			if o.NCode != 0 {
+				codes++
+			}
+		}
+	}
+	for _, s := range run.Trace {
+		if s.Kind == KGSave {
+			grants++
+		}
+	}
+	return
+}
+
 func c15Replay(sc c15Scenario, run *c15Run) map[string]any {
 	var logs [][]string
 	for _, l := range run.Logs {
@@ -567,7 +645,9 @@ func c15Replay(sc c15Scenario, run *c15Run) map[string]any {
 	for _, o := range run.Obs {
 		raw = append(raw, truncate(o.Raw, 160))
 	}
+	tokens, codes, grants := c15Artifacts(run)
 	return map[string]any{"suite": "c15", "kind": sc.Kind, "rotation": sc.Rotation, "flavour": run.Flavour, "requests": run.K,
+		"access_tokens_handed_out_by_the_authorization_endpoint": tokens, "codes_handed_out": codes, "grant_sessions_saved": grants,
 		"schedule": run.Sched, "succeeded": run.OK, "status": run.Status, "storage_calls_per_request": logs, "storage_calls_in_order": trace,
 		"lookups_before_first_consume_at_model_positions": run.Window, "lookups_before_first_consume_observed": run.ObsWindow,
 		"prefix": cList(sc.Prefix, Op.coq), "racing_request": run.RaceOp.coq(), "responses": raw,
@@ -614,7 +694,10 @@ func init() {
 			}
 		}
 		for _, rotation := range []bool{true, false} {
-			for _, sc := range c15Scenarios(rotation) {
+			for _, sc := range append(c15Scenarios(rotation), c15UriScenarios(rotation)...) {
+				if ctx.Quick() && sc.QuickRot != nil && *sc.QuickRot != rotation {
+					continue
+				}
 				// a request served alone on the real provider must succeed
 				solo := c15Execute(sc, "copy", 1, nil)
 				if solo.Err != "" || !solo.OK[0] {
@@ -663,6 +746,15 @@ func init() {
 						if flavour == "alias" && len(scheds) > 400 {
 							scheds = scheds[:400]
 						}
+						if flavour == "alias" && ctx.Quick() && sc.RespType != "" && len(scheds) > 80 {
+							// (the alias flavour is only monitored; the response-type scenarios differ from one another
+							// in what is issued after the consume, not in the window) every third schedule
+							var sub [][]int
+							for i := 0; i < len(scheds); i += 3 {
+								sub = append(sub, scheds[i])
+							}
+							scheds = sub
+						}
 						runs := c15RunAll(sc, flavour, pl.k, scheds, L, C)
 						var good []c15Run
 						for i := range runs {
@@ -676,8 +768,13 @@ func init() {
 							// the monitor, on the implementation's observations alone
 							if sc.OneTime && r.successes() >= 2 {
 								sig := c15Signature(sc, r)
-								addFinding(sig, fmt.Sprintf("%d of %d racing requests presenting one %s succeeded (rotation=%v, storage=%s, schedule %v: %d lookups scheduled before the first consume at the flow's call positions, %d observed)",
-									r.successes(), pl.k, sc.Kind, sc.Rotation, flavour, r.Sched, r.Window, r.ObsWindow), c15Replay(sc, r))
+								what := fmt.Sprintf("%d of %d racing requests presenting one %s succeeded (rotation=%v, storage=%s, schedule %v: %d lookups scheduled before the first consume at the flow's call positions, %d observed)",
+									r.successes(), pl.k, sc.Kind, sc.Rotation, flavour, r.Sched, r.Window, r.ObsWindow)
+								if sc.RespType != "" {
+									tk, cd, gr := c15Artifacts(r)
+									what += fmt.Sprintf("; the authorization endpoint handed out %d access tokens and %d codes, %d grant sessions were saved", tk, cd, gr)
+								}
+								addFinding(sig, what, c15Replay(sc, r))
 							}
 							if flavour == "copy" {
 								good = append(good, *r)
@@ -755,7 +852,7 @@ func init() {
 		ctx.Meta.Cases = total
 		ctx.Meta.Ops = total
 		ctx.Meta.Distinct = len(distinct)
-		ctx.Meta.Rule = "one case = one schedule imposed on k real concurrent requests presenting one credential (5 scenarios x rotation on/off; quick: every interleaving of 2 requests + 24 random interleavings of 3; thorough: every interleaving of 3, sampled to 5000); distinct by (scenario, k, who succeeded, call sequences); non-trivial = at least one request accepted and one refused"
+		ctx.Meta.Rule = "one case = one schedule imposed on k real concurrent requests presenting one credential (5 scenarios x rotation on/off + the pushed request_uri with each of the 7 response types - implicit and hybrid ones: access token, ID token and grant session issued by the authorization endpoint - quick: one rotation setting each; quick: every interleaving of 2 requests + 24 random interleavings of 3; thorough: every interleaving of 3, sampled to 5000); distinct by (scenario, k, who succeeded, call sequences); non-trivial = at least one request accepted and one refused"
 		var sigs []string
 		for s := range findings {
 			sigs = append(sigs, s)
@@ -807,7 +904,7 @@ func init() {
 		} else if rp.Race != nil {
 			kind, rot, fl, k, sched = rp.Race.Kind, rp.Race.Rotation, rp.Race.Flavour, rp.Race.Requests, rp.Race.Schedule
 		}
-		for _, sc := range c15Scenarios(rot) {
+		for _, sc := range append(c15Scenarios(rot), c15UriScenarios(rot)...) {
 			if sc.Kind != kind {
 				continue
 			}
